@@ -95,4 +95,12 @@ theorem narrow_nearest_normal (m e : Nat) (hm : m < 2^52) (he0 : 0 < e) (he : e 
       rw [abs_sub_comm]; exact abs_of_nonneg (by linarith)
     rw [habs1]; rw [habs2] at hb
     linarith
+
+/-- **end to end**: for a normal double whose rounded value fits the float range, the bit pattern produced by the
+    narrowing conversion decodes to `±x` where `x` is a nearest float magnitude to `|y|` among all finite floats -/
+theorem narrowBits_nearest (s e m : Nat) (hs : s < 2) (hm : m < 2^52) (he0 : 0 < e) (he : e < 2047)
+    (hno : ((narrowME (2^52 + m) ((e : Int) - 1075)).2 + 149).toNat * 2^23 + (narrowME (2^52 + m) ((e : Int) - 1075)).1 < 0x7f800000) :
+    ∃ x : ℚ, decodeF32 (narrowBits (s * 2^63 + e * 2^52 + m)) = .fin (if s = 1 then -x else x) ∧
+      ∀ z, IsF32Mag z → |x - ((2^52 + m : Nat) : ℚ) * pow2 ((e : Int) - 1075)| ≤ |z - ((2^52 + m : Nat) : ℚ) * pow2 ((e : Int) - 1075)| :=
+  ⟨_, narrow_decode_normal s e m hs hm he0 he hno, fun z hz => narrow_nearest_normal m e hm he0 he z hz⟩
 end Covfie.C07
